@@ -131,6 +131,16 @@ def outputs_agree(run, kconf, prog, cids):
     return ok, desc
 
 
+def defaults_sig(kconf):
+    """The defaults of every option and choice as text: a load rewrites them when it injects a stored value."""
+    sig = {}
+    for s in kconf.unique_defined_syms:
+        sig[s.name] = [(kc.core.expr_str(v), kc.core.expr_str(c)) for v, c in s.defaults]
+    for k, c in enumerate(kconf.unique_choices):
+        sig["<choice %d>" % k] = [(m.name, kc.core.expr_str(cond)) for m, cond in c.defaults]
+    return sig
+
+
 def replay(run, item, hist, rng, with_fresh=True, with_outputs=False):
     prog = item["prog"]
     info = ktree.sym_info(prog)
@@ -138,9 +148,11 @@ def replay(run, item, hist, rng, with_fresh=True, with_outputs=False):
     cids = ktree.choice_ids(prog)
     text = item.get("text") or ktree.render(prog)
     item["text"] = text
-    rec = {"h": hist, "err": False, "obs": [], "sel": [], "obs_inv": [], "obs_fresh": [], "obs_again": [], "outs_ok": True, "outs": []}
+    rec = {"h": hist, "err": False, "obs": [], "sel": [], "obs_inv": [], "obs_fresh": [], "obs_again": [], "outs_ok": True, "outs": [], "inj": []}
     try:
         kconf = kc.build(text, run.scratch, renames=item.get("renames"))
+        if "_defsig" not in item:
+            item["_defsig"] = defaults_sig(kconf)
         for k in hist:
             do_action(kconf, item["acts"][k - 1], item["files"], run.scratch)
         order = list(names)
@@ -152,6 +164,8 @@ def replay(run, item, hist, rng, with_fresh=True, with_outputs=False):
         rec["obs"] = [first[n] for n in names]
         rec["sel"] = evalcheck.observe_sel(kconf, prog, cids)
         rec["obs_again"] = evalcheck.observe(kconf, list(reversed(names)), info)[::-1]
+        sig = defaults_sig(kconf)
+        rec["inj"] = sorted(n for n in sig if sig[n] != item["_defsig"].get(n))
         if with_outputs and cids:
             rec["outs_ok"], rec["outs"] = outputs_agree(run, kconf, prog, cids)
         us = user_state(kconf) if with_fresh else None
